@@ -196,7 +196,7 @@ def _run_lockstep(case, only=None):
             snap = {k: (None if v is None else bytes(v)) for k, v in world.snapshot().items()}
             for i in idx:
                 out[i] = (got[i], {k: v for k, v in snap.items() if k == f"/s{i}" or k.startswith(f"/s{i}/")})
-            await asyncio.wait_for(server.close(), 1e4)
+            await common.close_server(server)
 
         world.run(main())
         if world.outcome not in ("ok",):
